@@ -222,9 +222,29 @@ func ruleB2(c *Ctx) {
 								bad = "calls time.Time." + cal.Name() + via
 							}
 						}
+						// the whole struct handed to code that is not one of time.Time's own methods
+						// (a generic hasher, reflection, fmt): wall clock, monotonic reading and
+						// location pointer become part of the result
+						isTimeMethod := false
+						if cal.Signature.Recv() != nil {
+							if pp, n := namedOf(cal.Signature.Recv().Type()); pp == "time" && n == "Time" {
+								isTimeMethod = true
+							}
+						}
+						if !isTimeMethod && fnPkgPath(cal) != modPath+"/lib/time" {
+							for _, a := range x.Common().Args {
+								if isStructTime(a.Type()) {
+									bad = "passes a whole time.Time struct to " + cal.String() + via
+								}
+							}
+						}
 						if fnPkgPath(cal) == modPath+"/lib/time" && cal.Blocks != nil && !seenFn[cal] {
 							seenFn[cal] = true
 							reach = append(reach, cal)
+						}
+					case *ssa.MakeInterface:
+						if isStructTime(x.X.Type()) {
+							bad = "converts a whole time.Time struct to an interface (for a formatter, hasher or reflection)" + via
 						}
 					case *ssa.BinOp:
 						if (x.Op == token.EQL || x.Op == token.NEQ) && isStructTime(x.X.Type()) {
